@@ -1315,6 +1315,15 @@ def adv_static_schemas():
         "  container c {\n    leaf u { type union { type string; type uint32; } }\n" + leaf("u_string") + leaf("w") + "  }\n")
     add("adv-oneof-samepath-uint", "union-leaf+sibling-named-like-member", "advo",
         "  container c {\n    leaf u { type union { type int8; type boolean; } }\n" + leaf("u_sint64", "uint8") + "  }\n")
+    # sibling union leaves / leaf-lists whose names differ only in '-' vs '_': their oneof member names
+    # (<field>_<type>) and the wrapper messages of union leaf-lists (<Field>Union) derive from the field name
+    add("adv-sibling-unions", "siblings:names-equal-after-sanitisation:unions", "advu",
+        "  container thresholds {\n"
+        "    leaf rate-limit { type union { type string; type uint32; } }\n"
+        "    leaf rate_limit { type union { type string; type uint32; } }\n"
+        "    leaf-list burst-size { type union { type string; type uint32; } }\n"
+        "    leaf-list burst_size { type union { type string; type uint32; } }\n"
+        "    leaf plain-a { type string; }\n  }\n")
     add("adv-identity-sanitise", "identities:names-equal-after-sanitisation", "advs",
         "  identity SBASE;\n  identity a-b { base SBASE; }\n  identity a.b { base SBASE; }\n  identity c { base SBASE; }\n"
         "  container c { leaf r { type identityref { base SBASE; } } }\n")
